@@ -150,10 +150,11 @@ BoxSymmetric == TRUE      \* the box of the family is [-XB, XB]^2; norm spelling
 BoundStmts(pr, item) ==
     CASE pr.bsp = "arr" -> << [kind |-> "bnd", how |-> "arr", lo |-> -XB, hi |-> XB, item |-> item] >>
       [] pr.bsp = "ent" -> << [kind |-> "bnd", how |-> "ent", lo |-> -XB, hi |-> XB, item |-> item] >>
-      [] pr.bsp = "lin" -> << Cmp(<<UnitT(1), UnitT(2)>>, <<ConstT(XB), ConstT(XB)>>, "<=", FALSE, <<1, 1>>, "vec", FALSE, 0, item),
-                              Cmp(<<NegT(UnitT(1)), NegT(UnitT(2))>>, <<ConstT(XB), ConstT(XB)>>, "<=", FALSE, <<1, 1>>, "vec", FALSE, 0, item) >>
-      [] pr.bsp = "inf" -> << [kind |-> "norm", how |-> "inf", rad |-> XB, item |-> item] >>
-      [] pr.bsp = "abs" -> << [kind |-> "norm", how |-> "abs", rad |-> XB, item |-> item] >>
+      [] pr.bsp = "lin" -> << Cmp(<<UnitT(1), UnitT(2)>>, <<ConstT(XB), ConstT(XB)>>, "<=", FALSE, pr.bsc, "vec", FALSE, 0, item),
+                              Cmp(<<NegT(UnitT(1)), NegT(UnitT(2))>>, <<ConstT(XB), ConstT(XB)>>, "<=", FALSE, pr.bsc, "vec", FALSE, 0, item) >>
+      \* (num/den) * norm(x) <= (num/den) * XB : the positive factor drops out of the denotation
+      [] pr.bsp = "inf" -> << [kind |-> "norm", how |-> "inf", rad |-> XB, num |-> pr.bsc[1], den |-> pr.bsc[2], item |-> item] >>
+      [] pr.bsp = "abs" -> << [kind |-> "norm", how |-> "abs", rad |-> XB, num |-> pr.bsc[1], den |-> pr.bsc[2], item |-> item] >>
 
 \* the decision rule is boxed on the default set (part of the family, spelled one way)
 RuleStmts(item) ==
@@ -292,7 +293,7 @@ Pres0(p) ==
      rsp |-> [i \in 1..NR(p) |-> "dir"], rsc |-> [i \in 1..NR(p) |-> <<1, 1>>],
      esp |-> [i \in 1..NR(p) |-> "one"], asp |-> [i \in 1..NR(p) |-> "loop"],
      msp |-> [i \in 1..NR(p) |-> "sides"], csp |-> [i \in 1..NR(p) |-> "last"],
-     bsp |-> "arr", ssp |-> "list", sbl |-> "obj", front |-> "ro"]
+     bsp |-> "arr", bsc |-> <<1, 1>>, ssp |-> "list", sbl |-> "obj", front |-> "ro"]
 
 \* TLC evaluates every initial state (also in simulation mode): the oracle is computed by the first
 \* step of a behaviour, so that only the programs actually walked are paid for
@@ -323,6 +324,9 @@ SwapDecl(i) == CanStep("SwapDecl") /\ i < Len(pres.decl) /\ Step("SwapDecl", i, 
 SwapStmt(i) == CanStep("SwapStmt") /\ i < NI(prog) /\ Step("SwapStmt", i, "", [pres EXCEPT !.order = Swap(@, i)])
 Respell(i, sp) == CanStep("Respell") /\ i \in Rows /\ pres.rsp[i] # sp /\ Step("Respell", i, sp, [pres EXCEPT !.rsp[i] = sp])
 Rescale(i, k) == CanStep("Rescale") /\ i \in Rows /\ pres.rsc[i] # k /\ Step("Rescale", i, ScaleName(k), [pres EXCEPT !.rsc[i] = k])
+\* R7b positive rescaling of the box written as linear rows / as a norm: k*norm(x, inf) <= k*XB
+RescaleBounds(k) == /\ CanStep("RescaleBounds") /\ pres.bsp \in {"lin", "inf", "abs"} /\ pres.bsc # k
+                    /\ Step("RescaleBounds", 0, ScaleName(k), [pres EXCEPT !.bsc = k])
 SplitEq(i) == /\ CanStep("SplitEq")
               /\ i \in Rows
               /\ prog.rows[i].sense = "eq"
@@ -356,6 +360,7 @@ RwNext == \/ Start
           \/ \E i \in 1..(MaxRows + 1) : SwapStmt(i)
           \/ \E i \in 1..MaxRows, sp \in {"dir", "neg", "flip"} : Respell(i, sp)
           \/ \E i \in 1..MaxRows, k \in Scales : Rescale(i, k)
+          \/ \E k \in Scales : RescaleBounds(k)
           \/ \E i \in 1..MaxRows : SplitEq(i)
           \/ \E i \in 1..MaxRows : ArrLoop(i)
           \/ \E i \in 1..MaxRows : MoveTerms(i)
